@@ -287,7 +287,7 @@ META = {
                        'symbolic, split lazily by the comparisons the code performs'],
     'discriminants': ['number, direction and owner pattern of the transfers (job parameters; owner patterns up to renaming of users)',
                       'scenario: event kinds, their targets, the gap between events (same instant / after ready callbacks / after the manager settled)'],
-    'bounds': {'quick': {'step_shapes': 'U, D, UU (same/different user), UD (same/different), DU, UUU with owners 0,0,1 and 0,1,0 (3 statuses)',
+    'bounds': {'quick': {'step_shapes': 'U, D, UU (same/different user), UD (same/different), DU, UUU with owners 0,0,1 and 0,1,0 (3 statuses) and 0,1,2 (UNKNOWN/OFFLINE only)',
                          'upload_slots': '0..4', 'scenario_initial_uploads': '3 (owners 0,1,2; owners 0,0,1 for three first events)',
                          'scenario_events': 2},
                'thorough': {'step_shapes': 'all shapes of <= 2 transfers; UUU with all 5 owner patterns (4 statuses, stale handles); UUD/UDU/DUU x 4 owner '
@@ -331,6 +331,7 @@ def jobs(tier):
         step('DU', [0, 0])
         for users in ([0, 0, 1], [0, 1, 0]):
             step('UUU', users, statuses=3, stale=False)
+        step('UUU', [0, 1, 2], statuses=2, stale=False)      # three users: top-2-of-3 by friend / privilege
     else:
         for dirs in ('U', 'D', 'UU', 'UD', 'DU'):
             for users in _users_patterns(len(dirs), 2):
